@@ -14,7 +14,8 @@ RULE = ("Shards enumerate the nine (alpha,beta) special-case cells {0,1/2,1}x{0,
         "(rectangular) transformation and the `symmetric` flag.  Oracle: a small operator algebra over D(p,q) = "
         "d_r^p d_r'^q gamma|_{r=r'} evaluated with R5: sigma is ENTERED from its documented (symmetrised) definition, the "
         "force is DERIVED as -sum_i (d_i+d'_i) sigma_ij and the Hessian as (d_k+d'_k) F_j - no implementation formula "
-        "is transcribed.  Tolerance 1e-9*sum|terms|.  Independently of R5: Richardson central differences of the "
+        "is transcribed.  Tolerance 1e-9*sum|terms|.  Each of the three functions is called once more on the SAME objects after the density "
+        "matrix was halved and the points reversed in place (linearity in gamma; rows reverse).  Independently of R5: Richardson central differences of the "
         "library's own sigma and F reproduce -F and H (1e-4 of sum|terms|; step 0.02/sqrt(alpha_max)).  Non-trivial: a shell with l >= 1 present (the (alpha,beta) "
         "cell is reported in the class histogram).")
 ASSUMPTIONS = ["Ehrenfest Hessian = Jacobian dF_j/dr_k, the documented expanded formula (its headline sign contradicts its own expansion)"]
@@ -99,6 +100,20 @@ def judge(case):
     if _cmp(v, "evaluate_ehrenfest_hessian(symmetric=True) vs average with transpose", ghs,
             0.5 * (gh + np.swapaxes(gh, 1, 2)), hs + np.swapaxes(hs, 1, 2), 2 * TOL):
         return v
+    # the same objects once more after their CONTENTS were changed in place (a value remembered per object would be stale):
+    # the density matrix halved - every field is linear in it - and the points listed in reverse - the rows reverse
+    g *= 0.5
+    pts[:] = pts[::-1].copy()
+    v.classes.append("recall-after-inplace-change")
+    for what, fn, old_, sc_, kw2 in (("evaluate_stress_tensor", gs.evaluate_stress_tensor, got, ss, {}),
+                                     ("evaluate_ehrenfest_force", gs.evaluate_ehrenfest_force, gf, fs, {}),
+                                     ("evaluate_ehrenfest_hessian", gs.evaluate_ehrenfest_hessian, gh, hs, {"symmetric": False})):
+        new_ = lib(fn, g, bas, pts, **kw, **kw2)
+        if _cmp(v, f"{what} called again on the same objects after the density matrix was halved and the points reversed in place "
+                   f"vs half the reversed first result", new_, 0.5 * old_[::-1], sc_[::-1]):
+            return v
+    g *= 2.0
+    pts[:] = pts[::-1].copy()
     # finite differences of the library's own fields (independent of R5)
     if case.get("symmetric"):
         v.classes.append("finite-difference")
